@@ -6,6 +6,13 @@ claimed = {
  "C15": dict(engine="stream", level="fault_enumeration", technique="deterministic simulation with fault injection: exhaustive single-fault enumeration (EOF at every byte, byte substitution/deletion/insertion, hard I/O error at every offset) x delivery schedules, plus seeded multi-fault search",
    text="Every single fault over a fixed corpus (the repository's test files, generated valid files, hand-written edge files) is enumerated: EOF as the crash point at every byte, 19 substitution values at every offset, every deletion, 19 insertion values at every gap, a sticky hard I/O error at every offset; each under three delivery schedules. Then seeded multi-fault and arbitrary-byte inputs under random transports. Oracle: constructing the reader, each next() and dropping it never panic; the consumer loop ends within len+2 items and the source within its step budget.",
    note="Trusted: catch_unwind attribution of panics to library code (harness panics exit 2); the step budget 8*len+8*eintr+1000 source calls is generous for any reader that consumes at least one byte per non-EOF fill; hangs that never touch the stream are caught only by a 120 s watchdog.", ref="DESIGN.md section 4 C15"),
+
+ "C02": dict(engine="scan", level="exploration", technique="deterministic simulation: seeded search over worlds (simulated host CPU, block-size knob, allocator policy, caller program) against a brute-force score table",
+   text="Seeded deterministic simulation of lightmotif::scan::Scanner in a simulated world: host CPU profile (generic / sse2 / avx2 through the verif-hooks override), block size relative to the sequence rows and wrap rows, allocator policy, spare look-ahead rows, and a caller program (k next() calls, then drain / max / drop). Invariants after every next(): position in range, exactly once, exact score, >= threshold; at exhaustion every position of the brute-force table at or above the threshold was returned; None within (L-M+1)+2 calls; no panic. The thorough tier additionally enumerates every block size 1..R+W+2 for 200 fixed worlds.",
+   note="Trusted: the brute-force f32 left-to-right score table computed by the harness from the matrix values the library holds; matrices stay in contract (finite non-wildcard entries, wildcard column -inf or <= row minimum). Weaker adversary than a stream or RNG seam (no fault in the narrow sense): the failures it targets are environment-triggered (host CPU, block boundaries).", ref="DESIGN.md section 4 C02"),
+ "C03": dict(engine="scan", level="exploration", technique="deterministic simulation: seeded search over worlds and next()/max() interleavings against a brute-force score table",
+   text="Same worlds as C02; the caller program is k next() calls followed by max(). Oracle: with U = expected hits not yet returned, max() is None iff U is empty, otherwise the returned position is in range, not already consumed, carries its exact score, meets the threshold and equals the maximum over U (ties: any maximal position). Generators plant consensus and near-consensus words so that several positions have near-equal scores that 8-bit rounding reorders.",
+   note="Trusted: as C02. Floating point: exact-arithmetic matrices (entries k/8) are compared strictly; otherwise a returned score within 2*M*2^-24*sum|term| of the maximum is accepted and counted as tolerated.", ref="DESIGN.md section 4 C03"),
 }
 na = {
  "C01":"pure function of (matrix, sequence, row range, backend): no schedule, fault, clock, stream or stateful history for a simulator to control",
@@ -19,7 +26,7 @@ na = {
  "C13":"pure numerical algorithm",
  "C17":"stateless wrappers around pure functions; its stream slice is simulated under C14/C15 and its view slice under C18",
 }
-pending = {"C02":"scan","C03":"scan","C04":"stripe","C06":"mem","C16":"gibbs","C18":"pyview","C19":"dense"}
+pending = {"C04":"stripe","C06":"mem","C16":"gibbs","C18":"pyview","C19":"dense"}
 import sys
 done = set(sys.argv[1:]) if len(sys.argv)>1 else set()
 checks=[]
@@ -48,7 +55,7 @@ m={
           "baseline_off_cmd":"cd /repo && cargo test --workspace --no-fail-fast --offline",
           "source_commits":["ca8be19"],
           "add_only":True},
- "engines":[{"name":"stream","path":"/verif/sim/src/sims/stream","serves_properties":["C14","C15"],"kind_free_text":"deterministic simulation of the motif-file readers over a simulated byte source (chunk schedules, EINTR, truncation, corruption, hard I/O errors)"}],
+ "engines":[{"name":"scan","path":"/verif/sim/src/sims/scan.rs","serves_properties":["C02","C03"],"kind_free_text":"deterministic simulation of the block scanner in a simulated world: host CPU profile, block-size knob, allocator policy, caller program"},{"name":"stream","path":"/verif/sim/src/sims/stream","serves_properties":["C14","C15"],"kind_free_text":"deterministic simulation of the motif-file readers over a simulated byte source (chunk schedules, EINTR, truncation, corruption, hard I/O errors)"}],
  "checks":checks,
  "not_applicable":nas,
  "notes":"Deterministic simulation with fault injection; see DESIGN.md. Exit codes: 0 held, 1 VIOLATION, 2 harness error. Genuine defects found and repaired are listed in KNOWN_FINDINGS.txt (fixed: lines).",
